@@ -96,7 +96,10 @@ CLAIMS = {
          "their length (C20_move_closure), hence every run that returns keeps closure and size (C20_run_preserves); the exhaustive exploration of the random choices "
          "contains the result of every run (C20_explore_covers_run). Termination (no stuck retry loop, no IndexError) is NOT proved for all inputs: decided per input "
          "by exploring every random choice in the model (n<=3/4), with the model tied to the code by scripted-randint correspondence; closure equality with the INPUT "
-         "(through the canonical vertices) and distinctness per input with the Lean-verified closure.",
+         "(through the canonical vertices) per input with the Lean-verified closure. Size/distinctness clause proved as a theorem about su(2^n), n>=2: a generating list has at least "
+         "2n+1 distinct strings, 2n+1 generating strings are pairwise distinct, every run from 2n+1 canonical vertices returns 2n+1 distinct strings generating su(2^n) "
+         "(C20_min_generators, C20_distinct, C20_run_distinct; C20_min_fails_n1 shows n=1 is the exception, where the check uses 2). Two recorded findings (known_findings.json): "
+         "dependents-not-removable, and IndexError with repeated members (both reproduced by the exact Lean models).",
          "Lean invariant proof over all random streams + exhaustive exploration of random choices per input + scripted-randint correspondence"),
  "C11": ("other", "6.C11", "C11 is FALSE on this tree (the recording builder is a drifted copy of the plain one) and is recorded as known findings made SPECIFIC by an exact "
          "Lean model of the drifted builder (Model/MorphRec.lean, frames as a log), tied to the code by exact comparison of legs/dependents/algebra/last frames: a C11 "
